@@ -538,9 +538,158 @@ def exhaustive_small(rng):
     return out
 
 
+# ----------------------------------------------------------------- boundary stream
+# Boundaries of every dimension of QUANTIFIED OVER, hit DELIBERATELY in every run (name -> what).
+BOUNDARIES = [
+    # column size
+    ("size0", "a column without any cell, under object / str / string"),
+    ("size1", "exactly one cell, for every family"),
+    ("one_nonmissing", "exactly one non-missing cell between missing ones (int, bool, string, list)"),
+    # multiplicities around the threshold (n-1, n, n+1) and ties
+    ("int_const_3/4/5/6", "one distinct integer occurring thresh-1, thresh, thresh+1, thresh+2 times"),
+    ("int_tie_5_5, int_5_4, int_5_6, int_4_4", "two integers: tie at thresh+1, one exactly on / below the threshold"),
+    ("str_const_4/5, str_tie_5_5, str_5_4", "the same for repeated strings, every string dtype"),
+    ("float_const_5, float_integral_5, float_one_nonintegral_nan",
+     "floats repeated thresh+1 times; integral floats without NaN; exactly one non-integral value plus NaN"),
+    # tokens
+    ("tok_rows_4, tok_rows_5", "rarest token in exactly thresh / thresh+1 rows"),
+    ("tok_dup_in_row_4", "rarest token in thresh rows but written twice in one of them (explode count thresh+1)"),
+    ("tok_ws_merge_5", "a token reaches thresh+1 rows only after stripping white space"),
+    ("tok_pipe_only, tok_comma_only, tok_both_seps", "exactly one / both separators qualify"),
+    ("tok_whole_string_5", "whole strings repeated thresh+1 times AND tokens repeated: categorical wins"),
+    ("tok_blank_cell", "a blank string cell among token rows"),
+    # lists
+    ("emb_len0, emb_len1, emb_single", "lists of length 0 / 1; a single list"),
+    ("list_first_longer/shorter, list_last_longer/shorter", "exactly one list off by one element, first vs last row"),
+    ("list_one_int_first/last, list_one_nan_last, list_one_inf_first", "exactly one offending element, first vs last"),
+    ("strlist_empty_first", "string lists whose first list is empty"),
+    # dates
+    ("date_single, date_const_5, date_datetime", "one date; a date repeated thresh+1 times (timestamp wins); date+time"),
+    # missing cells, permutations, labels
+    ("missing_first, missing_last, missing_majority", "missing cells only first / only last / more missing than present"),
+    ("perm_reverse, perm_swap_ends", "first and last row exchanged / column reversed"),
+    ("labels_all_equal, labels_reversed", "every index label identical; labels = reversed positions"),
+    # frames
+    ("df_0_columns, df_0_rows, df_1_column", "frame without columns / without rows / with one column"),
+    ("df_all_missing, df_first_missing, df_last_missing", "every / the first / the last column all-missing"),
+    ("df_same_series_twice", "the same Series object under two column names"),
+]
+
+
+def _bcase(name, fam, cells, rng, sd=None, missing=True):
+    """a boundary column with deliberate variants: reversed, ends swapped, all labels equal, labels reversed,
+    missing cells first / last / in the majority (where the family admits them)"""
+    n = len(cells)
+    ident = list(range(n))
+    swap = ident[:]
+    if n >= 2:
+        swap[0], swap[-1] = swap[-1], swap[0]
+    vs = [{"perm": ident[::-1], "add": [], "labels": {"t": "default"}},
+          {"perm": swap, "add": [], "labels": {"t": "dup", "v": [7] * n}},
+          {"perm": ident, "add": [], "labels": {"t": "perm", "v": ident[::-1]}}]
+    if missing:
+        k = rng.pick(["none", "nan"])
+        vs += [{"perm": ident, "add": [[0, k]], "labels": {"t": "default"}},
+               {"perm": ident, "add": [[n, k]], "labels": {"t": "default"}},
+               {"perm": ident, "add": [[0, k]] * (n + 1), "labels": {"t": "default"}}]
+    if fam in STR_FAMS and sd is None:
+        sd = rng.pick(["object", "str", "string"])
+    return {"kind": "series", "family": fam, "sdtype": sd, "cells": [list(c) for c in cells], "variants": vs,
+            "boundary": name,
+            "rep": {"backing": None, "name": None, "call": "pos", "alias": "module"}}
+
+
+def gen_boundary_cases(rng):
+    I = lambda v: ["i", v]
+    S_ = lambda v: ["s", v]
+    Fl = lambda a, b=1: ["f", a, b]
+    L = lambda *e: ["l", [list(x) for x in e]]
+    ef = lambda a, b=2: ["f", a, b]
+    M = ["m", "none"]
+    out = []
+    add = lambda *a, **k: out.append(_bcase(*a, rng=rng, **k))
+    for sd in ("object", "str", "string"):
+        add("size0", "allmissing", [], sd=sd, missing=False)
+    add("size0", "allmissing", [], missing=False)
+    singles = {"float": [Fl(3, 2)], "int": [I(3)], "bool": [["b", True]], "date": [["d", "2020-01-02"]],
+               "strcat": [S_("kabq")], "multicat": [S_("kabq|kecq")], "text": [S_("kabq kecq w0")],
+               "emb": [L(ef(3))], "seqnum": [L(I(1))], "strlist": [L(S_("kabq"))], "allmissing": [M]}
+    for fam, cells in singles.items():
+        add("size1", fam, cells, missing=fam not in ("float", "allmissing"))
+    for fam, c in (("int", I(4)), ("bool", ["b", False]), ("strcat", S_("kabq")), ("emb", L(ef(1), ef(5)))):
+        add("one_nonmissing", fam, [M, c, ["m", "nan"]])
+    for k in (3, 4, 5, 6):
+        add(f"int_const_{k}", "int", [I(2)] * k)
+    for name, a, b in (("int_tie_5_5", 5, 5), ("int_5_4", 5, 4), ("int_5_6", 5, 6), ("int_4_4", 4, 4)):
+        add(name, "int", [I(1)] * a + [I(9)] * b)
+    for sd in ("object", "str", "string"):
+        add("str_const_4", "strcat", [S_("kabq")] * 4, sd=sd)
+        add("str_const_5", "strcat", [S_("kabq")] * 5, sd=sd)
+        add("str_tie_5_5", "strcat", [S_("kabq")] * 5 + [S_("kecq")] * 5, sd=sd)
+        add("str_5_4", "strcat", [S_("kabq")] * 5 + [S_("kecq")] * 4, sd=sd)
+    add("float_const_5", "float", [Fl(5, 2)] * 5, missing=False)
+    add("float_integral_5", "float", [Fl(2)] * 5 + [Fl(3)] * 5, missing=False)
+    add("float_one_nonintegral_nan", "float", [Fl(2)] * 5 + [Fl(5, 2)] + [["m", "nan"]], missing=False)
+    # tokens: a, b in `base` rows each; the rarest token x in exactly 4 / 5 rows
+    def tok(rows):
+        return [S_(r) for r in rows]
+    for sep in ("|", ","):
+        r4 = ["kabq%skecq" % sep, "kecq%skabq" % sep, "kabq%skecq%skixq" % (sep, sep), "kixq%skabq" % (sep,),
+              "kecq%skixq%skabq" % (sep, sep), "kixq %s kecq" % sep, "kabq %s kecq " % sep]
+        # kixq: rows 2,3,4,5 -> 4 rows ; kabq: 0,1,2,3,4,6 ; kecq: 0,1,2,4,5,6
+        add("tok_rows_4", "multicat", tok(r4))
+        add("tok_rows_5", "multicat", tok(r4 + ["kixq"]))
+        add("tok_dup_in_row_4", "multicat", tok(r4[:5] + ["kixq %s kecq%skixq" % (sep, sep)] + r4[6:]))
+        add("tok_ws_merge_5", "multicat", tok(r4 + [" kixq  "]))
+    add("tok_pipe_only", "multicat", tok(["kabq|kecq", "kecq|kabq", "kabq |kecq", "kecq| kabq", "kabq|kecq|kabq"]))
+    add("tok_comma_only", "multicat", tok(["kabq,kecq", "kecq,kabq", "kabq ,kecq", "kecq, kabq", "kabq,kecq,kabq"]))
+    add("tok_both_seps", "multicat", tok(["kabq", "kabq ", " kabq", "kabq  ", "  kabq"]))
+    add("tok_whole_string_5", "multicat", tok(["kabq|kecq"] * 5 + ["kecq|kabq"] * 5))
+    add("tok_blank_cell", "multicat", tok(["kabq|kecq", "kecq|kabq", "kabq |kecq", "kecq| kabq", "kabq|kecq|kabq", "  "]))
+    # lists
+    add("emb_len0", "emb", [L(), L(), L()])
+    add("emb_len1", "emb", [L(ef(1)), L(ef(3))])
+    add("emb_single", "emb", [L(ef(1), ef(3), ef(5))])
+    two = lambda k: L(ef(k), ef(k + 2))
+    add("list_first_longer", "seqnum", [L(ef(1), ef(3), ef(5)), two(7), two(11)])
+    add("list_first_shorter", "seqnum", [L(ef(1)), two(7), two(11)])
+    add("list_last_longer", "seqnum", [two(7), two(11), L(ef(1), ef(3), ef(5))])
+    add("list_last_shorter", "seqnum", [two(7), two(11), L(ef(1))])
+    add("list_one_int_first", "seqnum", [L(I(1), ef(3)), two(7), two(11)])
+    add("list_one_int_last", "seqnum", [two(7), two(11), L(ef(3), I(1))])
+    add("list_one_nan_last", "seqnum", [two(7), two(11), L(ef(3), ["nan"])])
+    add("list_one_inf_first", "seqnum", [L(["inf", -1], ef(3)), two(7), two(11)])
+    add("strlist_empty_first", "strlist", [L(), L(S_("kabq")), L(S_("kecq"), S_("kabq"))])
+    # dates
+    add("date_single", "date", [["d", "1999/12/31"]])
+    add("date_const_5", "date", [["d", "2020-01-02"]] * 5)
+    add("date_datetime", "date", [["d", "2020-01-02 03:04:05"], ["d", "1999-12-31 23:59:59"]])
+    # frames
+    def col(name, fam, cells, sd=None):
+        return {"name": name, "family": fam, "sdtype": sd, "cells": cells}
+    def df(name, cols, alias_cols=False):
+        n = len(cols[0]["cells"]) if cols else 0
+        return {"kind": "df", "columns": cols, "labels": {"t": "default"}, "boundary": name,
+                "rep": {"build": rng.pick(["concat", "dict", "assign"]), "call": "pos", "alias": "module",
+                        "labels": ["str"] * len(cols), "same_object": alias_cols}}
+    ints = [I(1)] * 5
+    miss = [["m", "none"]] * 5
+    out.append(df("df_0_columns", []))
+    out.append(df("df_0_rows", [col("kabq", "allmissing", []), col("kecq", "allmissing", [])]))
+    out.append(df("df_1_column", [col("kabq", "int", ints)]))
+    out.append(df("df_all_missing", [col("kabq", "allmissing", miss), col("kecq", "allmissing", [["m", "nan"]] * 5)]))
+    out.append(df("df_first_missing", [col("kabq", "allmissing", miss), col("kecq", "int", ints)]))
+    out.append(df("df_last_missing", [col("kecq", "int", ints), col("kabq", "allmissing", miss)]))
+    out.append(df("df_same_series_twice", [col("kabq", "int", ints), col("kecq", "int", ints)], alias_cols=True))
+    return out
+
+
+BOUNDARY_NAMES = sorted({c["boundary"] for c in gen_boundary_cases(C.Rng(0))})
+
+
 def generate(rng, tier):
     n = 900 if tier == "quick" else 16000
-    cases = []
+    cases = gen_boundary_cases(rng)
     for fam in FAMILIES:                       # every family is present in every run
         cases += [gen_series_case(rng, tier, fam) for _ in range(4)]
     cases += [gen_series_case(rng, tier, "datex") for _ in range(4)]
@@ -689,6 +838,8 @@ def run(case):
         return c["name"] if k == "str" else (1000 + j if k == "int" else (c["name"], j))
     labs = [label(j, c) for j, c in enumerate(case["columns"])]
     sers = [build_series(c["cells"], c["sdtype"], case["labels"], name=c["name"]) for c in case["columns"]]
+    if rp.get("same_object") and sers:
+        sers = [sers[0]] * len(sers)            # the SAME Series object under every column name
     if rp["build"] == "dict" and sers:
         df = pd.DataFrame({lab: s for lab, s in zip(labs, sers)})
     elif rp["build"] == "assign" and sers:
@@ -950,6 +1101,9 @@ def stats(cases, obss):
         if c is None or o is None or "harness_exc" in o:
             continue
         d["total"] += 1
+        if c.get("boundary"):
+            d.setdefault("boundaries", {})
+            d["boundaries"][c["boundary"]] = d["boundaries"].get(c["boundary"], 0) + 1
         if c["kind"] == "df":
             d["df_cases"] += 1
             rp = c.get("rep")
@@ -1024,6 +1178,9 @@ def sanity(cases, obss):
     threshold, the variant kinds and the frame-level cases must not report green."""
     d = stats(cases, obss)
     probs = []
+    for b in BOUNDARY_NAMES:
+        if d.get("boundaries", {}).get(b, 0) == 0:
+            probs.append(f"boundary {b} not hit")
     for fam in list(FAMILIES) + ["datex"]:
         if d["families"].get(fam, 0) == 0:
             probs.append(f"family {fam} never drawn")
